@@ -29,6 +29,13 @@ impl TerminationModelBuilder {
                 })?;
                 let dur = dur_val.as_duration()?;
                 let freq = get_non_negative(config, "frequency", &local_scope)?;
+                if freq == 0 {
+                    // the runtime is checked when `iteration % frequency == 0`
+                    return Err(CompassConfigurationError::UserConfigurationError(format!(
+                        "field frequency for {} must be at least 1",
+                        local_scope
+                    )));
+                }
                 Ok(T::QueryRuntimeLimit {
                     limit: dur,
                     frequency: freq,
